@@ -1728,7 +1728,7 @@ func balancedState(p *Program, k string) string {
 							if ld, ok := bo.X.(*ssa.UnOp); ok && fieldKey(ld.X) == fk {
 								if bo.Op == token.ADD {
 									incs++
-									if !hasDeferredUndo(root, fk, "dec") {
+									if !hasDeferredUndo(root, fk, "dec") && !undoneByCallers(p, root, fk, "dec") {
 										balanced = false
 									}
 									continue
@@ -1750,7 +1750,7 @@ func balancedState(p *Program, k string) string {
 				case *ssa.MapUpdate:
 					if ld, ok := v.Map.(*ssa.UnOp); ok && fieldKey(ld.X) == fk {
 						ins++
-						if !hasDeferredUndo(root, fk, "delete") {
+						if !hasDeferredUndo(root, fk, "delete") && !undoneByCallers(p, root, fk, "delete") {
 							balanced = false
 						}
 					}
@@ -2149,4 +2149,30 @@ func stateNotRunState(k string) (string, bool) {
 		return "compiler output, written by Prepare only (reached through the call graph's over-approximation)", true
 	}
 	return "", false
+}
+
+// undoneByCallers: the function that marks (inserts / increments) is only
+// ever called directly, and every function that calls it registers the
+// deferred undo itself.
+func undoneByCallers(p *Program, fn *ssa.Function, fk, kind string) bool {
+	if functionUsedAsValue(p, fn) {
+		return false
+	}
+	sites := staticCallSites(p, fn)
+	if len(sites) == 0 {
+		return false
+	}
+	for _, site := range sites {
+		g := site.Parent()
+		if g == nil {
+			return false
+		}
+		for g.Parent() != nil {
+			g = g.Parent()
+		}
+		if _, isDefer := site.(*ssa.Defer); isDefer || !hasDeferredUndo(g, fk, kind) {
+			return false
+		}
+	}
+	return true
 }
